@@ -458,6 +458,8 @@ func runScenario(t *testing.T, sc Scenario) (res Result) {
 								return wamp.Dict{wamp.OptProgress: true}, wamp.List{int64(k)}, nil, nil
 							case "err":
 								return nil, nil, nil, errors.New("sendprog failed")
+							case "unset":
+								return nil, wamp.List{int64(k)}, nil, nil
 							}
 							return wamp.Dict{wamp.OptProgress: false}, wamp.List{int64(k)}, nil, nil
 						}
